@@ -132,6 +132,9 @@ func drvGenString(r *Rng) string {
 		n = 60 + r.Intn(200)
 	default:
 		n = 300 + r.Intn(1500)
+		if r.Chance(15) {
+			n = 2000 + r.Intn(15000) // around and beyond what the handlers' buffer pools keep (16 KiB)
+		}
 	}
 	b := make([]byte, n)
 	for i := range b {
@@ -713,6 +716,19 @@ func drvGenHistory(r *Rng, kind string, nOps int, s *Stream) deriveHistory {
 	logOn(c1)
 	logOn(c2)
 	logOn(a)
+	if r.Chance(10) {
+		// a spine: one long linear chain (9..24 derivations, mostly attributes), every node on it used
+		p := c2
+		for i, n := 0, 9+r.Intn(16); i < n; i++ {
+			p = derive(p, r.Chance(70))
+			if r.Chance(40) {
+				logOn(p)
+			}
+		}
+		logOn(p)
+		logOn(c2)
+		s.Count("history.spine")
+	}
 	for len(hist.Ops) < nOps {
 		if r.Chance(45) {
 			// candidates: depth < 5, fan-out < 4; prefer non-root nodes that still have < 2 children
@@ -974,7 +990,7 @@ func drvLineKey(kind string, line []byte) string {
 func runDerive(cfg Cfg) {
 	s := NewStream(cfg.Out, "derive")
 	defer s.Close()
-	s.Rule = "random derivation trees over the three real handlers and the Logger wrapper (depth ≤ 5, fan-out ≤ 4), derive/log interleaved in random order, plus concurrent rounds (2..8 goroutines deriving from one shared parent and logging); non-trivial = a line logged by a node whose non-root parent has ≥ 2 children and a preformatted length that is not a malloc size class (so cap > len: spare capacity) AFTER a younger sibling was derived from that parent, or any line logged during a concurrent round (distinct by handler kind and line)"
+	s.Rule = "random derivation trees over the three real handlers and the Logger wrapper (depth ≤ 5, fan-out ≤ 4; one history in ten with a linear chain of 9..24 further derivations; string values up to 17 KB), derive/log interleaved in random order, plus concurrent rounds (2..8 goroutines deriving from one shared parent and logging); non-trivial = a line logged by a node whose non-root parent has ≥ 2 children and a preformatted length that is not a malloc size class (so cap > len: spare capacity) AFTER a younger sibling was derived from that parent, or any line logged during a concurrent round (distinct by handler kind and line)"
 	rng := NewRng(cfg.Seed)
 	nHist := cfg.N(1200, 12000)
 	for i := 0; i < nHist; i++ {
